@@ -226,23 +226,23 @@ def handle (j : Json) : Json :=
           let S : Script := fun _ _ => .none
           let R : Raises := fun a b => a == rr && b == ri
           if mms.all (fun p => wf p.1 p.2 p.2.cls && (match p.2 with | .obj _ _ _ => true | _ => false)) then
-            match loadE S R mms with
-            | .ok _ => Json.mkObj [("nofail", true)]
-            | .error (km, f) =>
-              match srcs[km]? with
-              | none => badOp
-              | some (file, text) =>
-                let span : Nat → Nat × Nat := fun i =>
-                  match spans.find? (fun e => e.1 == i) with
-                  | some e => (e.2.1, e.2.2)
-                  | none => (0, 0)
-                let src : Src := ⟨file, text, span⟩
-                let site := siteOf src.file src.text (src.span f.call.id).1 (src.span f.call.id).2
-                let keyJ (e : Entry) : Json := Json.arr #[toJson e.rule, toJson e.id]
-                let before := ((mms.take km).map (fun p => (walk p.1 S p.2 p.2.cls).log)).flatten ++ f.log
-                answer .obj w r site
-                  [("fail", Json.mkObj [("model", toJson km), ("call", keyJ f.call),
-                                        ("before", Json.arr (before.map keyJ).toArray)])]
+            let span : Nat → Nat × Nat := fun i =>
+              match spans.find? (fun e => e.1 == i) with
+              | some e => (e.2.1, e.2.2)
+              | none => (0, 0)
+            let srcL : List Src := srcs.map (fun ft => ⟨ft.1, ft.2, span⟩)
+            match loadE S R mms, loadErr S R srcL (fun _ => w) (fun _ _ => r) mms with
+            | .ok _, _ => Json.mkObj [("nofail", true)]
+            | .error _, none => badOp
+            | .error (km, f), some res =>
+              let keyJ (e : Entry) : Json := Json.arr #[toJson e.rule, toJson e.id]
+              let before := ((mms.take km).map (fun p => (walk p.1 S p.2 p.2.cls).log)).flatten ++ f.log
+              let extra := [("fail", Json.mkObj [("model", toJson km), ("call", keyJ f.call),
+                                                 ("before", Json.arr (before.map keyJ).toArray)])]
+              match res with
+              | .other => Json.mkObj ([("other", Json.bool true)] ++ extra)
+              | .textx l => Json.mkObj ([("textx", Json.mkObj [("f", optJson l.filename), ("l", optJson l.line),
+                                                              ("c", optJson l.col), ("n", optJson l.nchar)])] ++ extra)
           else Json.mkObj [("err", "not-wf")]
         | _, _, _, _, _, _, _ => badOp
       | _, .ok sj, _ =>
